@@ -649,6 +649,7 @@ for _i in [1, 2, 3, 4, 5, 6, 7, 8, 10, 11, 12, 13, 14, 15, 16, 17, 18, 19, 20]:
                    ("@strip_docs_annotate", "docstrings removed, parameters and returns annotated"),
                    ("@logging", "a module logger and a debug call at the start of every function"),
                    ("@coerce_params", "matrix parameters of the graph utilities coerced with np.asarray at function entry"),
+                   ("@accept_lists", "`if not isinstance(X, np.ndarray): X = np.array(X)` at the entry of every graph utility"),
                    ("@early_exit", "no else after return / raise: the else body follows the if"),
                    ("@numpy_alias", "import numpy (no alias), every np.x spelled numpy.x")):
         VARIANTS.append(dict(id="%s-c%02d" % (_t[1:].replace("_", "-"), _i), prop="C%02d" % _i, expect="silent", edits=[(_t,)], rule=None, what=_w))
